@@ -97,7 +97,8 @@ class Harness:
         if kind == 'InternalRedirect':
             return cherrypy.InternalRedirect(sc['redirect_to'])
         if kind == 'Exception':
-            return Injected('boom ' + MARK)
+            # (a lone surrogate in the message: text that cannot be encoded when it is put on a page)
+            return Injected('boom ' + MARK + ('\ud800' if sc.get('surrogate') else ''))
         if kind == 'KeyboardInterrupt':
             return KeyboardInterrupt()
         if kind == 'SystemExit':
@@ -137,9 +138,16 @@ class Harness:
 
             def w(self, *a, **k):
                 act = action_of(self) if callable(action_of) else action_of
-                if act is not None:
-                    H.hit(act)
-                return orig(self, *a, **k)
+                if act is None:
+                    return orig(self, *a, **k)
+                n = H.counts.get(act, 0)
+                H.hit(act)
+                try:
+                    return orig(self, *a, **k)
+                except BaseException as e:
+                    # the framework's own step failed (not an injected fault): an input of the model's environment
+                    H.env_rules.append([act, n, H.kind_of(e)])
+                    raise
             w.__name__ = name
             patch(cls, name, w)
 
@@ -582,6 +590,7 @@ class FlowCheck(core.Check):
         sc['http5'] = rng.random() < .3
         sc['redirect_to'] = rng.choice(['/', '/other'])
         sc['error_page_fails'] = rng.random() < .08
+        sc['surrogate'] = rng.random() < .1
         faults = []
         if nfaults is None:
             nfaults = rng.choice([0, 1, 1, 1, 2, 2, 3])
